@@ -8,6 +8,7 @@ package main
 
 import (
 	"reflect"
+	"time"
 
 	"github.com/go-json-experiment/json/jsontext"
 )
@@ -233,6 +234,135 @@ type C15Case struct {
 	Kelvin  int `json:"kelvin,case:ignore"`
 	Und     int `json:"_,case:ignore"`
 	Und2    int `json:"__"`
+}
+
+// --- field types with an `IsZero() bool` method that DISAGREES with the zero Go value in both directions
+
+// value receiver on a non-struct: negative values report zero, the zero Go value 0 does not
+type C15ZNeg int
+
+func (z C15ZNeg) IsZero() bool { return z < 0 }
+
+// pointer receiver only: {7} reports zero, the zero Go value {0} does not
+type C15ZPtrRecv struct{ N int }
+
+func (z *C15ZPtrRecv) IsZero() bool { return z.N == 7 }
+
+// value receiver on a struct: zero iff A == B (agrees on {0,0}, disagrees on {3,3})
+type C15ZStruct struct{ A, B int }
+
+func (z C15ZStruct) IsZero() bool { return z.A == z.B }
+
+// never zero, not even as the zero Go value
+type C15ZNever struct{ N int }
+
+func (C15ZNever) IsZero() bool { return false }
+
+type C15Zeroer interface{ IsZero() bool }
+
+type C15ZPlain struct {
+	Neg  C15ZNeg
+	PR   C15ZPtrRecv
+	St   C15ZStruct
+	Nv   C15ZNever
+	T    time.Time
+	If   C15Zeroer
+	PNeg *C15ZNeg
+	PPR  *C15ZPtrRecv
+	PT   *time.Time
+	Any  any
+	I    int
+	S    string
+	Sl   []int
+}
+type C15ZOmitzero struct {
+	Neg  C15ZNeg      `json:",omitzero"`
+	PR   C15ZPtrRecv  `json:",omitzero"`
+	St   C15ZStruct   `json:",omitzero"`
+	Nv   C15ZNever    `json:",omitzero"`
+	T    time.Time    `json:",omitzero"`
+	If   C15Zeroer    `json:",omitzero"`
+	PNeg *C15ZNeg     `json:",omitzero"`
+	PPR  *C15ZPtrRecv `json:",omitzero"`
+	PT   *time.Time   `json:",omitzero"`
+	Any  any          `json:",omitzero"`
+	I    int          `json:",omitzero"`
+	S    string       `json:",omitzero"`
+	Sl   []int        `json:",omitzero"`
+}
+type C15ZOmitempty struct {
+	Neg  C15ZNeg      `json:",omitempty"`
+	PR   C15ZPtrRecv  `json:",omitempty"`
+	St   C15ZStruct   `json:",omitempty"`
+	Nv   C15ZNever    `json:",omitempty"`
+	T    time.Time    `json:",omitempty"`
+	If   C15Zeroer    `json:",omitempty"`
+	PNeg *C15ZNeg     `json:",omitempty"`
+	PPR  *C15ZPtrRecv `json:",omitempty"`
+	PT   *time.Time   `json:",omitempty"`
+	Any  any          `json:",omitempty"`
+	I    int          `json:",omitempty"`
+	S    string       `json:",omitempty"`
+	Sl   []int        `json:",omitempty"`
+}
+type C15ZBoth struct {
+	Neg  C15ZNeg      `json:",omitzero,omitempty"`
+	PR   C15ZPtrRecv  `json:",omitempty,omitzero"`
+	St   C15ZStruct   `json:",omitzero,omitempty"`
+	Nv   C15ZNever    `json:",omitzero,omitempty"`
+	T    time.Time    `json:",omitzero,omitempty"`
+	If   C15Zeroer    `json:",omitzero,omitempty"`
+	PNeg *C15ZNeg     `json:",omitzero,omitempty"`
+	PPR  *C15ZPtrRecv `json:",omitzero,omitempty"`
+	PT   *time.Time   `json:",omitzero,omitempty"`
+	Any  any          `json:",omitzero,omitempty"`
+	I    int          `json:",omitzero,omitempty"`
+	S    string       `json:",omitzero,omitempty"`
+	Sl   []int        `json:",omitzero,omitempty"`
+}
+
+// the four tag variants of the same field list, in the order {no tag, omitzero, omitempty, both}
+var c15ZeroGridTypes = []reflect.Type{reflect.TypeFor[C15ZPlain](), reflect.TypeFor[C15ZOmitzero](), reflect.TypeFor[C15ZOmitempty](), reflect.TypeFor[C15ZBoth]()}
+
+func c15ZeroGridValues() map[string][]any {
+	loc := time.FixedZone("x", 3600)
+	zeroInstantWithLoc := time.Time{}.In(loc) // IsZero() but not the zero Go value
+	someTime := time.Unix(1700000000, 0).UTC()
+	neg, zneg, pos := C15ZNeg(-3), C15ZNeg(0), C15ZNeg(5)
+	return map[string][]any{
+		"Neg":  {C15ZNeg(0), C15ZNeg(-3), C15ZNeg(5)},
+		"PR":   {C15ZPtrRecv{}, C15ZPtrRecv{7}, C15ZPtrRecv{1}},
+		"St":   {C15ZStruct{}, C15ZStruct{3, 3}, C15ZStruct{1, 2}},
+		"Nv":   {C15ZNever{}, C15ZNever{1}},
+		"T":    {time.Time{}, zeroInstantWithLoc, someTime},
+		"If":   {nil, C15ZNeg(-1), C15ZNeg(0), (*C15ZPtrRecv)(nil), &C15ZPtrRecv{7}, &C15ZPtrRecv{0}, time.Time{}, zeroInstantWithLoc, C15ZNever{}},
+		"PNeg": {nil, &neg, &zneg, &pos},
+		"PPR":  {nil, &C15ZPtrRecv{7}, &C15ZPtrRecv{0}},
+		"PT":   {nil, &zeroInstantWithLoc, &someTime, &time.Time{}},
+		"Any":  {nil, C15ZNeg(-1), C15ZNeg(0), zeroInstantWithLoc, 0, ""},
+		"I":    {0, 1},
+		"S":    {"", "x"},
+		"Sl":   {nil, []int{}, []int{1}},
+	}
+}
+
+// values of the IsZero-bearing leaf types (also used by the generated graphs) on which method and zero Go value disagree
+func c15SpecialValues(t reflect.Type) []any {
+	loc := time.FixedZone("x", 3600)
+	neg, zneg := C15ZNeg(-3), C15ZNeg(0)
+	switch t {
+	case reflect.TypeFor[C15ZNeg]():
+		return []any{C15ZNeg(-3), C15ZNeg(0)}
+	case reflect.TypeFor[C15ZStruct]():
+		return []any{C15ZStruct{3, 3}, C15ZStruct{}}
+	case reflect.TypeFor[C15ZPtrRecv]():
+		return []any{C15ZPtrRecv{7}, C15ZPtrRecv{}}
+	case reflect.TypeFor[time.Time]():
+		return []any{time.Time{}.In(loc), time.Time{}}
+	case reflect.TypeFor[*C15ZNeg]():
+		return []any{&neg, &zneg}
+	}
+	return nil
 }
 
 var c15Corpus = []reflect.Type{
